@@ -351,3 +351,79 @@ Theorem C10_signed_request_is_covered_as_in_C01 :
       X = Glue_xsw.emb (d_tree d).
 Proof. exact Glue_xsw.parse_request_relied_is_covered. Qed.
 Print Assumptions C10_signed_request_is_covered_as_in_C01.
+
+(* ------------------------------------------------------------------------------------------------------------------
+   (9) SCHEMA VALIDITY IS THE C13 JUDGEMENT; REQUIRED ATTRIBUTES PRESENT BUT EMPTY (Model/RequestValid.v).
+   In (1)-(8) d_valid is an input bit.  Here the received document comes with the instance tree [i] that
+   <msgtype>_from_string makes of it (Model/Schema.v; an attribute written X="" is the member holding the EMPTY value) and
+   d_valid is COMPUTED: vi prim i = validate.valid_instance of Model/Validate.v (C13) over Gen/SchemaTables.v, the tables
+   regenerated from the working tree on this run.  parse_request_v = _parse_request on such a text. *)
+From PV Require Import Model.Schema Model.Validate Gen.SchemaTables Proofs.Validate_lemmas Model.RequestValid
+  Proofs.RequestValid_lemmas Gen.RequestInst.
+
+(* (9a) handed over => valid_instance accepted the instance tree (and everything (1) says holds of the document) *)
+Theorem C10_handed_over_only_if_valid_instance :
+  forall pre prim c k b w i d,
+    parse_request_v pre true prim c k b w i = Ok (Some d) ->
+    vi prim i = ok /\ exists d0, d = judged prim i d0 /\ carries k b w d0.
+Proof. exact handed_over_valid_instance. Qed.
+Print Assumptions C10_handed_over_only_if_valid_instance.
+
+(* (9b) REFUSAL.  If the root or ANY node reachable below it through declared child members, at any depth (IDPEntry under
+   Scoping/IDPList, SubjectConfirmation under Subject, Attribute, Action, the Assertion inside Evidence, EncryptionMethod
+   inside EncryptedID ...), has a required attribute that is missing OR EMPTY, the request is handed over by no entry
+   point, over no binding, under no configuration, signed or not, for every primitive validator function *)
+Theorem C10_empty_required_attribute_refused :
+  forall pre prim c k b w i j d,
+    reach actual_schema i j -> required_missing_or_empty j ->
+    parse_request_v pre true prim c k b w i <> Ok (Some d).
+Proof. exact empty_required_refused. Qed.
+Print Assumptions C10_empty_required_attribute_refused.
+
+(* the executable reading of the hypothesis: the members it names *)
+Theorem C10_empty_required_members_sound :
+  forall j m, In m (empty_required_members j) -> required_missing_or_empty j.
+Proof. exact empty_required_members_sound. Qed.
+Print Assumptions C10_empty_required_members_sound.
+
+(* (9c) EXACTLY AS IF ABSENT: the judgement cannot tell X="" from no X - per attribute row (required or optional, typed or
+   not), hence per node and for the root of a request: two instance trees whose root attribute lists agree except that
+   one has "" where the other has nothing get the same verdict, so the same outcome of _parse_request *)
+Theorem C10_empty_is_judged_as_absent :
+  forall prim c attrs1 attrs2 t K xa xe,
+    same_but_empty attrs1 attrs2 ->
+    vi prim (I c attrs1 t K xa xe) = vi prim (I c attrs2 t K xa xe) /\
+    forall pre fixd cf k b w,
+      parse_request_v pre fixd prim cf k b w (I c attrs1 t K xa xe) = parse_request_v pre fixd prim cf k b w (I c attrs2 t K xa xe).
+Proof.
+  intros prim c attrs1 attrs2 t K xa xe Hs.
+  pose proof (root_empty_as_absent prim c attrs1 attrs2 t K xa xe Hs) as Hv. split; [exact Hv|].
+  intros pre fixd cf k b w. unfold parse_request_v, wire_judged, judged, vi_ok. rewrite Hv. reflexivity.
+Qed.
+Print Assumptions C10_empty_is_judged_as_absent.
+
+(* (9d) one long-lived receiver: whatever it has handed over at any point of a sequence passed valid_instance itself *)
+Theorem C10_history_only_valid_instances :
+  forall pre prim c ops k b w d,
+    In ((k, b, w), d) (run_history_v pre true prim c ops) ->
+    exists w0 i, In (k, b, w0, i) ops /\ w = wire_judged prim i w0 /\ vi prim i = ok.
+Proof. exact history_v_only_valid. Qed.
+Print Assumptions C10_history_only_valid_instances.
+
+(* (9e) non-vacuity, on instance trees REGENERATED on this run from requests built with the library's own classes
+   (Gen/RequestInst.v): an AuthnRequest carrying Scoping/IDPList/IDPEntry is judged valid and handed over; the same with
+   ID="" at the root, with IDPEntry ProviderID="" two levels below Scoping, and with that ProviderID absent are judged
+   invalid - a violation is reachable - and refused (NotValid), the empty and the absent one with the same verdict *)
+Example C10_empty_required_witness :
+  let P := prim_of [] in
+  let run i := parse_request_v_now P (w_cfg false false) KAuthn BPost (WText (Xml (w_doc w_unsigned None 0))) i in
+  vi P ri_good = ok /\ (exists d, run ri_good = Ok (Some d)) /\
+  vi_ok P ri_empty_root = false /\ empty_required_members ri_empty_root <> [] /\ run ri_empty_root = Err (E "NotValid") /\
+  vi_ok P ri_empty_deep = false /\ has_violation P validator_keys actual_schema ri_empty_deep = true /\
+  run ri_empty_deep = Err (E "NotValid") /\
+  vi P ri_empty_deep = vi P ri_absent_deep /\ run ri_absent_deep = Err (E "NotValid").
+Proof.
+  cbv zeta. repeat split; try (vm_compute; reflexivity); try (vm_compute; discriminate).
+  eexists. vm_compute. reflexivity.
+Qed.
+Print Assumptions C10_empty_required_witness.
